@@ -6,8 +6,9 @@ import ast
 import z3
 
 from . import seqops
+from .contract import ElemList
 from .core import PathEnd, PyRaise
-from .values import (BoundMethod, Closure, DictCell, EnumerateV, ExcV, MapCell, MapElem, ObjCell, RegionListCell, Opaque, RangeV, Ref, SeqCell,
+from .values import (BoundMethod, Closure, DictCell, ElemListCell, EnumerateV, ExcV, MapCell, MapElem, ObjCell, RegionListCell, Opaque, RangeV, Ref, SeqCell,
                      SeqV, Sym, Unsupported, is_scalar, kind_of, mk, sort_of, to_term)
 
 UNROLL_LIMIT = 40
@@ -514,6 +515,9 @@ class StmtMixin:
             # the list of all objects of a heap region, in key order
             region = self.path.cell(it).region
             return (lambda j: MapElem(region, z3.simplify(to_term(j, "int")))), self.path.cell(region).n
+        if isinstance(it, Ref) and isinstance(self.path.cell(it), ElemListCell):
+            ec = self.path.cell(it)
+            return (lambda j: MapElem(ec.region, z3.simplify(to_term(seqops.select(seqops.symbolic(ec.keys), to_term(j, "int")), "int")))), seqops.length(ec.keys)
         seq = self.as_seq(it)
         if seq is not None:
             if seq.items is not None:
@@ -691,6 +695,13 @@ class StmtMixin:
                 continue
             if isinstance(v, Ref):
                 cell = path.cell(v)
+                if expr in inv.types and isinstance(inv.types[expr], ElemList):
+                    nv = self.fresh_typed(inv, expr)
+                    path.heap[v.addr] = path.cell(nv)       # from here on: a list of region objects of any length
+                    continue
+                if isinstance(cell, ElemListCell):
+                    cell.keys = self.fresh_like(cell.keys, expr)
+                    continue
                 if isinstance(cell, SeqCell):
                     if expr in inv.types:
                         nv = self.fresh_typed(inv, expr)
@@ -705,6 +716,17 @@ class StmtMixin:
                 elif isinstance(cell, ObjCell):
                     raise Unsupported("havoc of object mutated in loop")
         for expr in sorted(attrs):
+            if expr.startswith("region:"):
+                # "region:<name>.<field>": the loop body may change this field of ANY object of the region
+                rname, fname = expr[len("region:"):].split(".")
+                rref = path.ghost.get("regions_by_name", {}).get(rname)
+                if rref is None:
+                    continue
+                rcell = path.cell(rref)
+                kind, arr = rcell.fields[fname]
+                rcell.fields = dict(rcell.fields)
+                rcell.fields[fname] = (kind, z3.Array(path.fresh_name(f"hv.{rname}.{fname}"), z3.IntSort(), arr.sort().range()))
+                continue
             node = ast.parse(expr, mode="eval").body
             base = self.eval(node.value, frame)
             name = self.mangle(node.attr, frame)
